@@ -161,6 +161,9 @@ HOSTILE_BLOCKS = [
     ("RLP nested deeper than the interpreter's recursion limit", nested_rlp(__import__("sys").getrecursionlimit() + 500).hex()),
     ("19 fields, coinbase shorter than a midstate", mk_header(19, seed=10, fields_override=lambda f: f[:-1] + [b"\x01\x02"])[0].hex()),
     ("empty string", ""),
+    ("19 fields, coinbase whose byte counter is 2^64-1", mk_header(19, seed=12, fields_override=lambda f: f[:-1] + [b"\xff" * 8 + f[-1][8:]])[0].hex()),
+    ("20 fields, coinbase whose byte counter is 2^61", mk_header(20, seed=13, fields_override=lambda f: f[:-1] + [b"\x20" + bytes(7) + f[-1][8:]])[0].hex()),
+    ("19 fields, coinbase whose byte counter is 2^61-1", mk_header(19, seed=14, fields_override=lambda f: f[:-1] + [b"\x1f" + b"\xff" * 7 + f[-1][8:]])[0].hex()),
     ("19 fields whose last is a list", (lambda: rlp_list([rlp_bytes(pat(3, i)) for i in range(18)] + [rlp_list([])]).hex())()),
 ]
 
@@ -172,7 +175,7 @@ HB_PARTS = [(w, i) for i in range(len(HOSTILE_BLOCKS)) for w in range(3)
 @obligation(tier="quick", parts=len(HB_PARTS), timeout=90,
             part_names=lambda p: "%s <- %s" % (["advance.blocks", "advance.brothers", "updateAncestor.blocks"][HB_PARTS[p][0]],
                                                 HOSTILE_BLOCKS[HB_PARTS[p][1]][0]),
-            bounds="13 malformed block strings x {advanceBlockchain.blocks, advanceBlockchain.brothers, updateAncestorBlock.blocks}; "
+            bounds="16 malformed block strings x {advanceBlockchain.blocks, advanceBlockchain.brothers, updateAncestorBlock.blocks}; "
                    "pre-state: pending-reconnect flag symbolic; position of the bad entry among good ones symbolic (first/last)",
             examples=[(0, dict(flag=False, last=False)), (7, dict(flag=True, last=True)), (5, dict(flag=False, last=True))])
 def hostile_block(flag: bool, last: bool) -> bool:
